@@ -84,7 +84,7 @@ def workerEvs (sv : Nat) (bad : Nat → Nat → Bool) : (todo : Nat) → (i : Na
   | todo + 1, i =>
     if bad sv i then
       -- `q_out.get()` returns None; `w.join()` raises; `_stop_workers` stops workers 0..i-1
-      { evs := [.launch (sv, i), .fail (sv, i)] ++ (List.range i).map (fun j => Ev.exit (sv, j)), err := some (sv, i) }
+      { evs := [.launch (sv, i), .fail (sv, i)] ++ ((List.range i).map (fun j => (sv, j))).map Ev.exit, err := some (sv, i) }
     else
       let r := workerEvs sv bad todo (i + 1)
       { evs := .launch (sv, i) :: r.evs, err := r.err }
@@ -279,6 +279,22 @@ def step (net : Net) (s : State) : Act → Option State
 def Final (s : State) : Prop := s.pc = []
 
 instance (s : State) : Decidable (Final s) := by unfold Final; exact inferInstance
+
+/-- every action that can possibly be enabled (`cands_complete`) -/
+def cands (net : Net) : List Act :=
+  [.inject, .main] ++ (List.range net.nodes.length).flatMap (fun n =>
+    Act.put n :: match net.nodes[n]? with
+      | some nd => nd.ins.flatMap (fun c => (List.range (max 1 nd.plans.length)).map (fun k => Act.get n c k))
+      | none => [])
+
+def enabled (net : Net) (s : State) : List Act := (cands net).filter (fun a => (step net s a).isSome)
+
+/-- the action list is a run from the initial state that ends in a state where `__exit__` has not returned
+    and no thread can move -/
+def deadlocks (net : Net) (as : List Act) : Bool :=
+  match as.foldl (fun (o : Option State) a => o.bind (fun s => step net s a)) (some (init net)) with
+  | some s => !decide (Final s) && (enabled net s).isEmpty
+  | none => false
 
 /-- `__enter__` on a server that has been exited: every servlet asserts `not self._started`, fresh queues and
     threads are created, the ledger is carried over -/
